@@ -19,7 +19,7 @@ def protected_state(ex, repo):
 
 class HistoryProp(Prop):
     """shared by the properties whose workload is the rewrite families"""
-    families = [f for f in hist.FAMILIES if f not in ("destructive", "partial")]
+    families = [f for f in hist.FAMILIES if f not in ("destructive", "partial", "human_overwrites_ai")]
     two_sided = True
     modes = ["wrapper"]
 
